@@ -10,11 +10,11 @@ import json, os, socket
 from vlib import Broken, read_ndjson, validate_history_trace, parallel, tlc_vh_lines, split_histories
 
 SPEC = "c20_diagnosis_failsafe"
-BUGS = ["count0", "nocooldown", "nostable", "periodfirst"]
+BUGS = ["count0", "nocooldown", "nostable", "periodfirst", "flat"]
 
 
 def rand_history(rng, thorough):
-    N = rng.choice([1, 2, 2, 3, 3, 4, 5])
+    N = rng.choice([0, 1, 1, 2, 2, 3, 3, 4, 5])      # incl. the degenerate settings: N <= 1, stable period 0, cool-down 0
     iv = rng.choice([1, 2, 2, 3, 5])
     ms = rng.choice([0, 0, 1, iv, 2 * iv, 2 * iv + 1, 3 * iv, 9])
     cd = rng.choice([0, 0, 1, iv, 3 * iv + 1, 7, 12, 30])
@@ -149,7 +149,7 @@ def run(ctx):
     T = ctx.thorough
     binary = ctx.build_harness("c20")
     sd = ctx.spec_dir(SPEC)
-    ctx.cov["rule"] = ("cases = every boolean observation sequence of length 8 (thorough: 12) for 18 settings (N, stable period, "
+    ctx.cov["rule"] = ("cases = every boolean observation sequence of length 8 (thorough: 12) for 24 settings (N 0..3, stable period, "
                        "cool-down), generated by TLC from WatcherI + TLC random walks with late wake-ups / slow predicate + seeded random "
                        "scripts (flapping to calm signals, random settings incl. check interval); non-trivial = at least one reaction "
                        "fired and at least one change of the observed value did not lead to a reaction; distinct by (settings, events)")
@@ -158,7 +158,9 @@ def run(ctx):
                                "harness/cmd/c20 (events are appended by the predicate / the callbacks themselves with the clock value)"]
     ctx.assumptions += ["1 tick = 1 s; the watcher is the only user of its clock",
                         "the statement constrains reactions only: P neither obliges the watcher to react nor to stop observing during the cool-down",
-                        "an observation is stamped with the instant the predicate returns"]
+                        "an observation is stamped with the instant the predicate returns",
+                        "Stable and the unconditional flapping clause combine to: a reaction needs max(N, 2) equal consecutive observations "
+                        "(a value read once cannot be told from a signal that changes at every check); see the head of WatcherP.tla"]
 
     # (1) exhaustive: all boolean sequences up to length 12 for all small settings; late wake-ups on a shorter bound;
     #     the monitor itself; every broken variant refuted; witnesses reachable
@@ -184,7 +186,7 @@ def run(ctx):
     # (2) spec -> code: TLC enumerates the scripts of every behaviour of WatcherI; replayed, judged by P, compared with I
     g = ctx.tlc(sd, "GenC20", "GenC20.cfg" if not T else "GenC20_12.cfg", workers=1, timeout=900, label="case enumeration", heap="6g")
     cases = tlc_vh_lines(g.out)
-    want = 18 * (2 ** (8 if not T else 12))
+    want = 24 * (2 ** (8 if not T else 12))
     if len(cases) != want:
         raise Broken("case enumeration produced %d scripts, expected %d: %s" % (len(cases), want, g.out[-1500:]))
     g2 = ctx.tlc(sd, "GenC20", "GenC20_jit.cfg", workers=1, simulate="num=%d" % (40 if not T else 400), depth=20,
